@@ -41,6 +41,8 @@ NAT, BOOL, UNIT, LAYOUT, DETAILS, CHUNK, ORD, BUMP = "nat", "bool", "unit", "lay
 RAWVEC, RERR, STRATEGY, FALLIB = "rawvec", "rerr", "strategy", "fallibility"
 CHUNKLIST, CELLPREV = "chunklist", "cellprev"
 ELEM, SLOT, VECSELF, GUARD = "elem", "slot", "vecself", "guard"
+VECK = ("vec", "drain")     # kinds whose threaded state is the vector model: `Vec` methods, and methods of its iterator structs
+BD, DRAIN, ITER2 = "bound", "drainstruct", "sliceiter"
 SLICE, CB2 = "slice", "cb2"   # a sub-slice of the vector's buffer (first slot, length); a two-argument predicate (call log as data)
 EXTW = "extendwith"      # `impl ExtendWith<T>`: the one implementor, `ExtendElement(value)`, is the value it clones
 
@@ -73,6 +75,9 @@ def lean_ty(t):
     if t == EXTW: return "V.Elem"
     if t == SLICE: return "(Nat × Nat)"
     if t == CB2: return "(Nat → V.Elem → V.Elem → Option Bool)"
+    if t == BD: return "V.Bd"
+    if t == DRAIN: return "V.Drain"
+    if t == ITER2: return "(Nat × Nat)"
     if t == FALLIB: return "Rs.Fallibility"
     if isinstance(t, tuple) and t[0] == "tuple": return "(" + " × ".join(lean_ty(x) for x in t[1]) + ")"
     if t == "selfstruct": raise Untranslatable("the receiver struct is not a value")
@@ -87,6 +92,8 @@ def rust_ty(text):
     if t == "T": return ELEM
     if t == "E": return EXTW
     if t == "[T]": return SLICE
+    if t in ("Drain<T>", "Drain<'a,'bump,T>"): return DRAIN
+    if t in ("slice::Iter<'a,T>", "slice::Iter<T>"): return ITER2
     if t in ("()", ""): return UNIT
     if t == "Layout": return LAYOUT
     if t == "NewChunkMemoryDetails": return DETAILS
@@ -123,6 +130,9 @@ class Fn:
         self.self_fields = self_fields or []
         # parameter types the signature leaves generic (closures)
         self.ptypes = ptypes or {}
+        # a value of the element type returned by this function goes to the caller of the crate (event `moveOut`); internal
+        # helpers (an iterator's `next` called by its own destructor) do not emit it
+        self.moves_out = True
 
     def param_ty(self, name, text):
         return self.ptypes[name] if name in self.ptypes else rust_ty(text)
@@ -211,6 +221,17 @@ FUNCS += [
     Fn("resize", "vec", "st", file=VEC_RS, group="Vec", lean="vec_resize"),
     Fn("clear", "vec", "st", file=VEC_RS, group="Vec", anchor=VEC_IMPL, lean="vec_clear"),
 ]
+DRAIN_FIELDS = [("tail_start", "usize"), ("tail_len", "usize"), ("iter", "slice::Iter<'a,T>")]
+FUNCS += [
+    Fn("drain", "vec", "st", file=VEC_RS, group="VecDrain", anchor=VEC_IMPL, lean="vec_drain", ptypes={"range": ("tuple", [BD, BD])}),
+    Fn("next", "drain", "st", file=VEC_RS, group="VecDrain", anchor="Iterator for Drain<'a, 'bump, T>", lean="drain_next", self_fields=DRAIN_FIELDS),
+    Fn("next_back", "drain", "st", file=VEC_RS, group="VecDrain", anchor="DoubleEndedIterator for Drain<'a, 'bump, T>", lean="drain_next_back",
+       self_fields=DRAIN_FIELDS),
+    Fn("drop", "drain", "st", file=VEC_RS, group="VecDrain", anchor="Drop for Drain<'a, 'bump, T>", lean="drain_drop", self_fields=DRAIN_FIELDS),
+]
+for _f in FUNCS:
+    if _f.lean in ("drain_next", "drain_next_back"):
+        _f.moves_out = False
 FN = {f.name: f for f in FUNCS}
 # names that exist on several receivers: the table is per receiver kind
 FN_BY_KIND = {}
@@ -307,11 +328,11 @@ class Tr:
         # the threaded state: the arena model's `s : St`, or for RawVec methods the vector `v : V.VS`
         if fn.kind == "rawvec":
             self.sv, self.sty, self.bindS, self.pureS = "v", "V.VS", "RsV.bindV", "RsV.pureV"
-        elif fn.kind == "vec":
+        elif fn.kind in VECK:
             self.sv, self.sty, self.bindS, self.pureS = "s", "RsM.VW", "RsM.bindW", "RsM.pureW"
         else:
             self.sv, self.sty, self.bindS, self.pureS = "s", "St", "bindO", "pureO"
-        if fn.kind in ("rawvec", "vec"):
+        if fn.kind in ("rawvec",) + VECK:
             self.lead, self.lead_names = ["(c : V.Cfg)"], ["c"]
         elif fn.kind in ("bump", "chunk", "assocst", "iter"):
             self.lead, self.lead_names = ["(E M : Nat)"], ["E", "M"]
@@ -333,6 +354,17 @@ class Tr:
 
     def bad(self, why):
         return self.wrap(f'Outcome.bad "{self.fn.name}: {why}"')
+
+    def recv_is_vec(self, recv, env):
+        """is this receiver expression the vector itself (`self` in a `Vec` method, `self.vec.as_mut()` or a local bound to
+        it in a method of one of its iterator structs)?"""
+        if self.fn.kind not in VECK:
+            return False
+        try:
+            p = self.pure(recv, env)
+        except Untranslatable:
+            return False
+        return p is not None and p[1] == VECSELF
 
     def cleanup(self, env):
         """the frame's drop glue as a function of the state (None when the frame owns nothing)"""
@@ -365,18 +397,23 @@ class Tr:
             return f"(match {term} with | some v_ => {self.wrap('Outcome.ok v_')} | none => {self.wrap('Outcome.err')})"
         if ty == "never":
             return term
-        if self.fn.kind == "vec" and ty == ELEM:
-            return f"(RsM.moved {term} {self.sv}, Outcome.ok {term})"
-        if self.fn.kind == "vec" and ty == opt(ELEM):
-            m = re.fullmatch(r"\(some (.*)\)", term)
-            if m and balanced(m.group(1)):
-                return f"(RsM.moved {paren(m.group(1))} {self.sv}, Outcome.ok {term})"
-            if term == "none":
-                return self.wrap("Outcome.ok none")
-            return f"(match {term} with | some e_ => (RsM.moved e_ {self.sv}, Outcome.ok (some e_)) | none => {self.wrap('Outcome.ok none')})"
+        val = term
         if self.fn.self_fields and not self.in_closure:
             finals = [env.d["self." + f][0] for f, _ in self.fn.self_fields]
-            return self.wrap(f"Outcome.ok ({term}, {', '.join(finals)})")
+            val = f"({term}, {', '.join(finals)})"
+        if self.fn.kind in VECK and self.fn.moves_out and ty == ELEM:
+            return f"(RsM.moved {term} {self.sv}, Outcome.ok {val})"
+        if self.fn.kind in VECK and self.fn.moves_out and ty == opt(ELEM):
+            m = re.fullmatch(r"\(some (.*)\)", term)
+            if m and balanced(m.group(1)):
+                return f"(RsM.moved {paren(m.group(1))} {self.sv}, Outcome.ok {val})"
+            if term == "none":
+                return self.wrap(f"Outcome.ok {val}")
+            if val != term:
+                raise Untranslatable("return of an optional element together with receiver fields")
+            return f"(match {term} with | some e_ => (RsM.moved e_ {self.sv}, Outcome.ok (some e_)) | none => {self.wrap('Outcome.ok none')})"
+        if self.fn.self_fields and not self.in_closure:
+            return self.wrap(f"Outcome.ok {val}")
         if isinstance(self.ret, tuple) and self.ret[0] == "res2":
             if isinstance(ty, tuple) and ty[0] == "res2":
                 return self.wrap(f"Outcome.ok {paren(term)}")
@@ -389,7 +426,7 @@ class Tr:
     def RET_END(self, t, ty, env):
         """the function's value is ready: the locals that still own a value (and are not the value returned) are dropped,
         newest first; a destructor that panics unwinds through the rest"""
-        if self.fn.kind != "vec":
+        if self.fn.kind not in VECK:
             return self.RET(t, ty, env)
         for ln in list(env.owned):
             if not isinstance(ln, tuple) and re.search(r"(?<![A-Za-z0-9_.'])%s(?![A-Za-z0-9_'])" % re.escape(ln), t):
@@ -496,7 +533,7 @@ class Tr:
             if len(segs) == 1 and segs[0] in env.d:
                 return env.d[segs[0]]
             if segs == ["self"]:
-                if self.fn.kind in ("iter", "guard"):
+                if self.fn.kind in ("iter", "guard", "drain"):
                     return "self", "selfstruct"
                 if self.fn.kind == "rawvec":
                     return "v", RAWVEC
@@ -590,6 +627,7 @@ class Tr:
             if ty == VECSELF and f == "len": return f"{self.sv}.1.len", NAT
             if ty == VECSELF and f == "buf": return f"{self.sv}.1", RAWVEC
             if ty == "selfstruct" and ("self." + f) in env.d: return env.d["self." + f]
+            if ty == "selfstruct" and f == "vec" and self.fn.kind == "drain": return "self", VECSELF
             if isinstance(ty, tuple) and ty[0] == "tuple" and f in ("0", "1"):
                 return f"{paren(t)}.{int(f) + 1}", ty[1][int(f)]
             return None
@@ -616,6 +654,12 @@ class Tr:
                 return t, ty[1]
             if ty == CELLPREV and name == "get" and not args:
                 return f"(Rs.chunk_prev E {self.sv} {paren(t)})", CHUNK
+            if ty == VECSELF and name in ("as_mut", "as_ref") and not args:
+                return t, VECSELF
+            if isinstance(ty, tuple) and ty == ("tuple", [BD, BD]) and name in ("start_bound", "end_bound") and not args:
+                return f"{paren(t)}.{1 if name == 'start_bound' else 2}", BD
+            if ty == SLICE and name in ("iter", "iter_mut") and not args:
+                return f"({paren(t)}.1, {paren(t)}.1 + {paren(t)}.2)", ITER2
             if ty == VECSELF and name in ("as_slice", "as_mut_slice") and not args:
                 return f"(0, {self.sv}.1.len)", SLICE
             if ty == SLICE and name == "len" and not args:
@@ -624,7 +668,7 @@ class Tr:
                 return f"{paren(t)}.1", SLOT
             if ty == VECSELF and name in ("as_ptr", "as_mut_ptr") and not args:
                 return "0", SLOT       # a pointer into the buffer is the index of the slot it points at
-            if ty == RAWVEC and name == "ptr" and not args and self.fn.kind == "vec":
+            if ty == RAWVEC and name == "ptr" and not args and self.fn.kind in VECK:
                 return "0", SLOT
             if ty == VECSELF and name in ("get_unchecked", "get_unchecked_mut") and len(pa) == 1 and pa[0][1] == NAT:
                 return pa[0][0], SLOT
@@ -685,6 +729,8 @@ class Tr:
                 return f"(some {t})", (opt(ty) if n == "Some" else res(ty))
             if n == "Err" and len(pa) == 1:
                 return "none", res("?")
+            if segs[-1] in ("from_raw_parts_mut", "from_raw_parts") and len(pa) == 2 and pa[0][1] == SLOT and pa[1][1] == NAT:
+                return f"({pa[0][0]}, {pa[1][0]})", SLICE
             if segs == ["ExtendElement"] and len(pa) == 1 and pa[0][1] == ELEM:
                 return pa[0][0], EXTW
             if segs[-2:] == ["SetLenOnDrop", "new"] and len(pa) == 1 and self.fn.kind == "vec" and args[0] == ("ref", ("field", ("path", ["self"]), "len")):
@@ -717,6 +763,15 @@ class Tr:
                     d[f] = p[0]
                 if set(d) != {"new_size_without_footer", "size", "align"}: return None
                 return f"(Details.mk {d['new_size_without_footer']} {d['align']} {d['size']})", DETAILS
+            if segs[-1] == "Drain":
+                d = {}
+                for f, fe in fs:
+                    p = self.pure(fe, env)
+                    if p is None: return None
+                    d[f] = p
+                if set(d) != {"tail_start", "tail_len", "iter", "vec"} or d["iter"][1] != ITER2 or d["vec"][1] != VECSELF:
+                    return None
+                return f"(V.Drain.mk {d['tail_start'][0]} {d['tail_len'][0]} {paren(d['iter'][0])}.1 {paren(d['iter'][0])}.2)", DRAIN
             if segs[-1] == "Bump":
                 d = {}
                 for f, fe in fs:
@@ -773,6 +828,9 @@ class Tr:
                 return env2, f"some {lp}"
             if n == "Err" and isinstance(ty, tuple) and ty[0] == "res":
                 return env, "none"
+            if ty == BD and n in ("Included", "Excluded") and len(pat[2]) == 1:
+                env2, lp = self.pattern(pat[2][0], NAT, env)
+                return env2, f".{'inc' if n == 'Included' else 'exc'} {lp}"
             if n == "Ok" and isinstance(ty, tuple) and ty[0] == "res2" and len(pat[2]) == 1:
                 env2, lp = self.pattern(pat[2][0], ty[1], env)
                 return env2, f".ok {lp}"
@@ -782,6 +840,7 @@ class Tr:
         if k == "ppath":
             n = pat[1][-1]
             if n == "None": return env, "none"
+            if ty == BD and n == "Unbounded": return env, ".unb"
             if ty == ORD and n in ("Less", "Equal", "Greater"):
                 return env, {"Less": ".lt", "Equal": ".eq", "Greater": ".gt"}[n]
             if ty == RERR and n in ("CapacityOverflow", "AllocErr"):
@@ -899,7 +958,7 @@ class Tr:
                     raise Untranslatable(f"field .{e[2]} of {ty}")
                 return k(pp[0], pp[1], env_)
             return self.E(e[1], env, K(kf))
-        if kind == "index" and self.fn.kind == "vec" and e[1] == ("path", ["self"]):
+        if kind == "index" and self.recv_is_vec(e[1], env):
             # `self[i]` / `&mut self[i]`: the slice bounds check, then a pointer to slot i
             def kix(t, ty, env_):
                 if ty != NAT:
@@ -1077,30 +1136,30 @@ class Tr:
             return self.args(args, env, kcb)
 
         def kall(pa, env_):
-            if self.fn.kind == "vec" and segs[-2:] == ["mem", "swap"] and len(pa) == 2 and pa[0][1] == SLOT and pa[1][1] == SLOT:
+            if self.fn.kind in VECK and segs[-2:] == ["mem", "swap"] and len(pa) == 2 and pa[0][1] == SLOT and pa[1][1] == SLOT:
                 return self.bind_call(f"RsM.swap {sp(pa)}", "st", k, env_, UNIT, nopanic=True)
-            if self.fn.kind == "vec" and len(segs) == 1 and ("vec", n) in FN_BY_KIND:
+            if self.fn.kind in VECK and len(segs) == 1 and ("vec", n) in FN_BY_KIND:
                 return self.call_fn(FN_BY_KIND[("vec", n)], None, pa, env_, k)
             # constructor-like / pure functions whose arguments needed evaluation
             pp = self.pure(("call", f, [("path", [f"__a{i}"]) for i in range(len(pa))]),
                            Env({f"__a{i}": pa[i] for i in range(len(pa))}))
             if pp is not None:
                 return k(pp[0], pp[1], env_)
-            if self.fn.kind == "vec" and segs[-2:] == ["ptr", "write"] and len(pa) == 2 and pa[0][1] == SLOT and pa[1][1] == ELEM:
+            if self.fn.kind in VECK and segs[-2:] == ["ptr", "write"] and len(pa) == 2 and pa[0][1] == SLOT and pa[1][1] == ELEM:
                 return self.bind_call(f"RsM.write c {sp(pa)}", "st", k, env_.disown(pa[1][0]), UNIT, nopanic=True)
-            if self.fn.kind == "vec" and segs[-2:] == ["ptr", "read"] and len(pa) == 1 and pa[0][1] == SLOT:
+            if self.fn.kind in VECK and segs[-2:] == ["ptr", "read"] and len(pa) == 1 and pa[0][1] == SLOT:
                 e2, ln = env_.bind("x", ELEM)
                 return (f"(match RsM.read {paren(pa[0][0])} {self.sv} with\n| none => {self.bad('read of an uninitialised slot')}\n"
                         f"| some {ln} =>\n{k(ln, ELEM, e2.own(ln))})")
-            if self.fn.kind == "vec" and segs[-2:] == ["ptr", "replace"] and len(pa) == 2 and pa[0][1] == SLOT and pa[1][1] == ELEM:
+            if self.fn.kind in VECK and segs[-2:] == ["ptr", "replace"] and len(pa) == 2 and pa[0][1] == SLOT and pa[1][1] == ELEM:
                 e2, ln = env_.bind("old", ELEM)
                 e3 = e2.disown(pa[1][0]).own(ln)
                 inner = self.bind_call(f"RsM.write c {sp(pa)}", "st", K(lambda t_, ty_, e4: k(ln, ELEM, e4)), e3, UNIT, nopanic=True)
                 return (f"(match RsM.read {paren(pa[0][0])} {self.sv} with\n| none => {self.bad('read of an uninitialised slot')}\n"
                         f"| some {ln} =>\n{inner})")
-            if self.fn.kind == "vec" and segs[-2:] == ["ptr", "copy"] and len(pa) == 3 and pa[0][1] == SLOT and pa[1][1] == SLOT:
+            if self.fn.kind in VECK and segs[-2:] == ["ptr", "copy"] and len(pa) == 3 and pa[0][1] == SLOT and pa[1][1] == SLOT:
                 return self.bind_call(f"RsM.copy c {sp(pa)}", "st", k, env_, UNIT, nopanic=True)
-            if self.fn.kind == "vec" and segs[-2:] == ["ptr", "drop_in_place"] and len(pa) == 1 and pa[0][1] == SLOT:
+            if self.fn.kind in VECK and segs[-2:] == ["ptr", "drop_in_place"] and len(pa) == 1 and pa[0][1] == SLOT:
                 return self.bind_call(f'RsM.drop_in_place c "{self.fn.name}: drop of an uninitialised slot" {sp(pa)}', "st", k, env_, UNIT)
             if segs[-2:] == ["ptr", "copy_nonoverlapping"] and len(pa) == 3:
                 return self.bind_call(f"Rs.copy_nonoverlapping {sp(pa)}", "st", k, env_, UNIT, footers=False)
@@ -1126,7 +1185,7 @@ class Tr:
             raise Untranslatable(f"{g.name} is called but could not be translated itself")
         rty = rust_ty(g.sig["ret"])
         lead = []
-        if g.kind in ("rawvec", "vec"):
+        if g.kind in ("rawvec",) + VECK:
             lead = ["c"]
         elif g.kind in ("bump", "chunk", "assocst", "iter"):
             lead = ["E", "M"]
@@ -1288,6 +1347,47 @@ class Tr:
             return "\n".join(lines) + ("\n" if lines else "") + k("()", UNIT, e3)
         return self.bind_call(call, "st", K(kafter), env, ("tuple", [env.d[m][1] for m in muts]) if len(muts) > 1 else (env.d[muts[0]][1] if muts else UNIT), nopanic=True)
 
+    def FOR_EACH_DROP(self, env, k):
+        """`self.for_each(drop)` in the destructor of an iterator struct: `while let Some(x) = self.next() { drop(x) }`.
+        A lambda-lifted function recursive on fuel (2^64), calling the translated `next` of the same struct; the receiver's
+        fields are the loop state.  A destructor that panics unwinds out of the loop (the frame owns nothing else)."""
+        g = FN_BY_KIND.get((self.fn.kind, "next"))
+        if g is None or g.sig is None:
+            raise Untranslatable("for_each(drop): the struct's `next` is not translated")
+        fields = [f for f, _ in self.fn.self_fields]
+        tys = [rust_ty(ft) for _, ft in self.fn.self_fields]
+        self.nj += 1
+        name = f"{self.fn.lean}.loop_{self.nj}"
+        envl = env.copy()
+        envl, fuel = envl.bind("fuel", NAT)
+        envl, fuel1 = envl.bind("fuel", NAT)
+        params, cur = [], []
+        for f, t in zip(fields, tys):
+            envl, ln = envl.bind("self." + f, t)
+            params.append(f"({ln} : {lean_ty(t)})")
+            cur.append(ln)
+        rty = "(" + " × ".join(lean_ty(t) for t in tys) + ")"
+        envl, r = envl.bind("r", NAT)
+        envl, x = envl.bind("x", ELEM)
+        proj = [f"{r}" + "".join(".2" for _ in range(j + 1)) + (".1" if j < len(fields) - 1 else "") for j in range(len(fields))]
+        body = (f"(RsM.bindW (Gen.Fn.{g.lean} c {' '.join(cur)} {self.sv}) fun {self.sv} {r} =>\n(match {r}.1 with\n"
+                f"| none => ({self.sv}, Outcome.ok ({', '.join(proj)}))\n"
+                f"| some {x} =>\n(RsM.bindW (RsM.drop_local c {x} {self.sv}) fun {self.sv} _ =>\n"
+                f"(Gen.Fn.{name} c {fuel1} {' '.join(paren(p) for p in proj)} {self.sv}))))")
+        self.lifted.append(
+            f"def {name} (c : V.Cfg) ({fuel} : Nat) {' '.join(params)} ({self.sv} : {self.sty}) : {self.sty} × Outcome {rty} :=\n"
+            + indent(f"(match {fuel} with\n| 0 => {self.bad('loop fuel exhausted')}\n| {fuel1} + 1 =>\n{body})") + "\n")
+        call = f"Gen.Fn.{name} c USIZE {' '.join(env.d['self.' + f][0] for f in fields)}"
+
+        def kafter(rr, ty_, e2):
+            lines, e3 = [], e2
+            for j, (f, t) in enumerate(zip(fields, tys)):
+                e3, ln = e3.bind("self." + f, t)
+                pj = rr + "".join(".2" for _ in range(j)) + (".1" if j < len(fields) - 1 else "")
+                lines.append(f"let {ln} := {pj};")
+            return "\n".join(lines) + "\n" + k("()", UNIT, e3)
+        return self.bind_call(call, "st", K(kafter), env, ("tuple", tys), nopanic=True)
+
     def WHILE(self, e, env, k):
         """`while cond { body }`: a lambda-lifted function recursive on a fuel argument (started at `2^64`: every loop of the
         translated subset advances an index below `usize::MAX`; running out of fuel is `bad`).  Like `FOR`, it returns the final
@@ -1387,9 +1487,17 @@ class Tr:
                 return f"(RsM.bindW (RsM.clone_next c {ln} {self.sv}) fun {self.sv} {r} =>\n{body})"
             if name == "last":      # `self.0`: the value itself moves out
                 return k(ln, ELEM, env.disown(ln).own(ln))
-        if recv == ("path", ["self"]) and self.fn.kind == "vec" and ("vec", name) in FN_BY_KIND:
+        if recv == ("field", ("path", ["self"]), "iter") and "self.iter" in env.d and env.d["self.iter"][1] == ITER2 \
+                and name in ("next", "next_back") and not args:
+            it = env.d["self.iter"][0]
+            e2, r = env.bind("r", ("tuple", [opt(SLOT), ITER2]))
+            e3, it2 = e2.bind("self.iter", ITER2)
+            return f"let {r} := RsM.slice_iter_{name} {it};\nlet {it2} := {r}.2;\n{k(r + '.1', opt(SLOT), e3)}"
+        if recv == ("path", ["self"]) and self.fn.kind == "drain" and name == "for_each" and args == [("path", ["drop"])]:
+            return self.FOR_EACH_DROP(env, k)
+        if self.recv_is_vec(recv, env) and ("vec", name) in FN_BY_KIND:
             return self.args(args, env, lambda pa, env_: self.call_fn(FN_BY_KIND[("vec", name)], None, pa, env_, k))
-        if recv == ("field", ("path", ["self"]), "buf") and self.fn.kind == "vec" and ("rawvec", name) in FN_BY_KIND:
+        if recv[0] == "field" and recv[2] == "buf" and self.recv_is_vec(recv[1], env) and ("rawvec", name) in FN_BY_KIND:
             g = FN_BY_KIND[("rawvec", name)]
             if g.sig is None:
                 raise Untranslatable(f"RawVec::{name} is called but could not be translated itself")
@@ -1409,6 +1517,14 @@ class Tr:
                 return self.args(args, env, lambda pa, env_: self.bind_call(f"{lf} E M {sp(pa)}", mode, k, env_, rty))
             if ("bump", name) in FN_BY_KIND:
                 return self.args(args, env, lambda pa, env_: self.call_fn(FN_BY_KIND[("bump", name)], None, pa, env_, k))
+        if name in ("expect", "unwrap") and len(args) <= 1:
+            def kx(t, ty, env_):
+                if not (isinstance(ty, tuple) and ty[0] in ("opt", "res")):
+                    raise Untranslatable(f".{name} on {ty}")
+                env2, v = env_.bind("x", ty[1])
+                pre, kj = self.join(k, ty[1], env_, [], 1)
+                return f"(match {t} with\n| some {v} => {k(v, ty[1], env2)}\n| none => {self.panic(env_)})"
+            return self.E(recv, env, K(kx))
         # Option/Result combinators taking closures or diverging functions
         if name in ("map", "unwrap_or_else", "and_then", "ok_or_else", "filter"):
             def kr(t, ty, env_):
@@ -1527,6 +1643,10 @@ class Tr:
                     return go(i + 1, e3)
 
                 def kl(t, ty, e2):
+                    if pat[0] == "pid" and ty == VECSELF:      # another name for the vector: no value to bind
+                        e3 = e2.copy()
+                        e3.d[pat[1]] = (t, VECSELF)
+                        return go(i + 1, e3)
                     if pat[0] == "pid":
                         e3, ln = e2.bind(pat[1], ty)
                         if ty in (ELEM, EXTW) and t in e3.owned:      # a move: the new local owns the value now
@@ -1571,7 +1691,7 @@ class Tr:
                             self.chunk_ver[ln] = self.version
                         return f"let {ln} := {t};\n{go(i + 1, e3)}"
                     return self.E(rhs, env_, K(kself))
-                if lhs == ("field", ("path", ["self"]), "len") and self.fn.kind == "vec":
+                if lhs[0] == "field" and lhs[2] == "len" and self.recv_is_vec(lhs[1], env):
                     val = rhs if op == "=" else ("bin", op[:-1], lhs, rhs)
                     return self.E(val, env_, K(lambda tv, tyv, e3: self.bind_call(
                         f"RsM.set_len {paren(tv)}", "st", K(lambda t_, ty_, e4: go(i + 1, e4)), e3, UNIT, nopanic=True)))
@@ -1629,7 +1749,7 @@ class Tr:
                 continue
             ty = self.fn.param_ty(n, t)
             env, ln = env.bind(n, ty)
-            if ty in (ELEM, EXTW) and self.fn.kind == "vec":
+            if ty in (ELEM, EXTW) and self.fn.kind in VECK:
                 env = env.own(ln)
             params.append(f"({ln} : {lean_ty(ty)})")
             if ty == CB2:
@@ -1833,8 +1953,8 @@ def translate_all(repo):
 
 
 GROUP_IMPORTS = {"Arith": [], "Details": ["Arith"], "Bytes": ["Arith"], "Limit": ["Arith", "Bytes"], "Footer": ["Arith"], "Fast": ["Arith", "Footer"],
-                 "Realloc": ["Arith", "Fast", "Footer", "Limit"], "RawVec": [], "Vec": ["RawVec"], "Reset": ["Arith", "Footer"], "Rewind": ["Arith", "Footer", "Limit", "Fast", "Realloc"], "NewChunk": ["Arith"], "Iter": ["Arith", "Footer"], "Ctor": ["Arith", "Details", "NewChunk"], "Slow": ["Arith", "Details", "Bytes", "Limit", "Footer", "Fast", "NewChunk"]}
-GROUP_PRELUDE = {"RawVec": "BumpVerif.Model.RsVec", "Vec": "BumpVerif.Model.RsVecM"}
+                 "Realloc": ["Arith", "Fast", "Footer", "Limit"], "RawVec": [], "Vec": ["RawVec"], "VecDrain": ["RawVec", "Vec"], "Reset": ["Arith", "Footer"], "Rewind": ["Arith", "Footer", "Limit", "Fast", "Realloc"], "NewChunk": ["Arith"], "Iter": ["Arith", "Footer"], "Ctor": ["Arith", "Details", "NewChunk"], "Slow": ["Arith", "Details", "Bytes", "Limit", "Footer", "Fast", "NewChunk"]}
+GROUP_PRELUDE = {"RawVec": "BumpVerif.Model.RsVec", "Vec": "BumpVerif.Model.RsVecM", "VecDrain": "BumpVerif.Model.RsVecM"}
 
 
 def run(repo, out_dir, write_if_changed):
